@@ -74,6 +74,21 @@ class Ref:
         return {'err': r}
       self.config[r] = op['val']
       return {'ok': None}
+    if name == 'query':
+      st, r = self.normal_key(op['scope'], op['sel'], op['arg'])
+      if st == 'err':
+        return {'err': r}
+      if r not in self.config:
+        return {'err': 'ValueError'}
+      return {'ok': self.config[r]}
+    if name == 'getb':
+      rows = {}
+      sc = op['scope']
+      for i in range(len(sc) + 1) if op['inherit'] else [len(sc)]:
+        for (s_, sel, arg), v in self.config.items():
+          if s_ == '/'.join(sc[:i]) and sel == op['sel']:
+            rows[arg] = v
+      return {'ok': sorted([a, v] for a, v in rows.items())}
     if name == 'hook':
       self.hooks.append(op)
       return {'ok': None}
@@ -197,11 +212,27 @@ def _strip(o):
   return o
 
 
+def _strip_values(op):
+  """Drops harness-only annotations inside values (e.g. the spelling a reference is written with)."""
+  def clean(x):
+    if isinstance(x, dict):
+      return {k: clean(v) for k, v in x.items() if k not in ('_text', '_spelled', '_abbr')}
+    if isinstance(x, list):
+      return [clean(v) for v in x]
+    return x
+  out = dict(op)
+  for k in ('val', 'ret', 'body'):
+    if k in out:
+      out[k] = clean(out[k])
+  return out
+
+
 def check_history(case, impl, judge_ops):
   """Runs the reference over the case; returns a description of the first op (among judge_ops)
   whose implementation observation differs from the reference, else None."""
   ref = Ref()
-  for k, (op, res) in enumerate(zip(case['ops'], impl['out'])):
+  for k, (op0, res) in enumerate(zip(case['ops'], impl['out'])):
+    op = _strip_values(op0)
     want = ref.step(op)
     if want is None or op['op'] not in judge_ops:
       continue
